@@ -122,11 +122,25 @@ def run_publish(work, store, order, img_order, fault, kind, calls_path):
                 if ph == "before":
                     fail()
                 if ph == "mid":
-                    fp = os.path.join(store, *path)
-                    os.makedirs(os.path.dirname(fp), exist_ok=True)
-                    with open(fp, "wb") as fh:
-                        fh.write(source.read()[:7])
-                    fail()
+                    # the failure happens INSIDE the store's own put_item, while the data are being copied: 7 bytes are
+                    # written through whatever file the real code opened, then the copy dies
+                    import shutil as _sh
+
+                    real_copy = _sh.copyfileobj
+
+                    def dying_copy(src, dst, *a, **k):
+                        dst.write(src.read()[:7])
+                        dst.flush()
+                        with open(calls_path + ".mid", "a") as fh2:
+                            fh2.write("x")
+                        fail()
+
+                    _sh.copyfileobj = dying_copy
+                    try:
+                        real_put(*path, source=source)
+                    finally:
+                        _sh.copyfileobj = real_copy
+                    fail()  # the store did not copy through shutil.copyfileobj: the failure falls right after the item
                 real_put(*path, source=source)
                 fail()
             real_put(*path, source=source)
@@ -301,6 +315,7 @@ def run_case(spec, workdir):
             if n % 3 == 0 or fault is None:
                 counters["real_refresh_decisions"] += real_refresh(work, store, images, probs, label)
             counters["fault_cases"] += 1
+            counters["faults_inside_the_real_put_item"] += int(os.path.exists(calls_path + ".mid"))
             counters["faults_" + (fault[0] + ("_" + fault[2] if fault and fault[0] == "put" else "") if fault else "none")] += 1
             # recovery
             out2 = run_publish(work, store, {}, [], None, "exception", calls_path + "2")
@@ -330,6 +345,6 @@ def run_case(spec, workdir):
 
 def finish(agg, tier):
     c = agg["counters"]
-    if c.get("fault_cases", 0) < 500 or c.get("kind_crash", 0) < 100 or c.get("faults_put_mid", 0) < 50 or c.get("faults_rename", 0) < 20:
+    if c.get("fault_cases", 0) < 500 or c.get("kind_crash", 0) < 100 or c.get("faults_put_mid", 0) < 50 or c.get("faults_rename", 0) < 20 or c.get("faults_inside_the_real_put_item", 0) < 50:
         return dict(inconclusive="fault enumeration incomplete: %s" % c)
     return dict(coverage=dict(evaluations=c["fault_cases"]))
